@@ -88,7 +88,9 @@ VDtCmp(e) ==
 VRuleDay(e) == IF ValidRuleDay(e.a.d) THEN Judge(e.r, OutOk(e.a.d))
                ELSE Judge(e.r, Out({}, {"TransitionRule.InvalidRuleDayJulianDay", "TransitionRule.InvalidRuleDayMonth",
                                           "TransitionRule.InvalidRuleDayWeek", "TransitionRule.InvalidRuleDayWeekDay"}))
-VRule(e) == LET v == RuleVerdict(e.a) IN Judge(e.r, IF v.ok = {} THEN Out({}, v.err) ELSE OutOk(1))
+RuleDayErrs == {"TransitionRule.InvalidRuleDayJulianDay", "TransitionRule.InvalidRuleDayMonth", "TransitionRule.InvalidRuleDayWeek", "TransitionRule.InvalidRuleDayWeekDay"}
+VRule(e) == IF ~ValidRuleDay(e.a.sd) \/ ~ValidRuleDay(e.a.ed) THEN Judge(e.r, Out({}, RuleDayErrs))       \* a day outside its range: no rule at all
+            ELSE LET v == RuleVerdict(e.a) IN Judge(e.r, IF v.ok = {} THEN Out({}, v.err) ELSE OutOk(1))
 
 \* ---- C13: vZone construction (both constructors are called by the harness; r.ref is the borrowed one's verdict) ----
 ZoneInfo(z) ==
@@ -281,7 +283,9 @@ Step(e) ==
   IF e.op = "zone" THEN
      LET z == MkZone(e.a) tags == VZone(e, z) accepted == Has(e.r, "ok") IN
      /\ vBad' = vBad \cup {<<vL, t>> : t \in tags}
-     /\ vZone' = IF accepted THEN z ELSE UtcZone            \* re-synchronised from the logged outcome
+     \* re-synchronised from the logged outcome; an accepted zone that no definition can be evaluated on (no type, a type index
+     \* beyond the list) is flagged above and replaced by UTC so that the rest of the trace is still judged
+     /\ vZone' = IF accepted /\ z.ty # <<>> /\ (\A i \in 1..Len(z.tr) : z.tr[i].ix < Len(z.ty)) THEN z ELSE UtcZone
      /\ vInfo' = vInfo \cup {<<vL, t>> : t \in ZoneInfo(z)}
      /\ vBuf' = EmptyBuf
   ELSE IF e.op = "resolve" THEN
